@@ -6,3 +6,5 @@ import "github.com/hknutzen/Netspoc-Approve/go/pkg/cisco"
 func VerifMergeACL() { cisco.VerifMergeACL(cmdInfo, "ASA") }
 
 func VerifASAACL() { cisco.VerifASAACL(cmdInfo) }
+
+func VerifDeterminismASA() { cisco.VerifDeterminismASA(cmdInfo) }
